@@ -78,9 +78,27 @@ func (e *Exec) call(fr *frame, ci ssa.CallInstruction, st *State, k func(*State,
 		k(st, res)
 		return
 	}
-	if e.ld.isModuleFn(callee) && len(callee.Blocks) > 0 {
+	_, modelled := externs[calleeKey(callee)]
+	if (e.ld.isModuleFn(callee) && len(callee.Blocks) > 0) || (!modelled && e.inlineDepth < maxInlineDepth && e.stdInlinable(callee, 0)) {
 		if e.inlineDepth >= maxInlineDepth || callee == fr.fn {
-			e.errorf("%s: call to %s needs a contract (recursive or too deep to inline)", fnName(fr.fn), name)
+			if e.bounded > 0 {
+				// bounded fallback: deeper recursion is beyond the bound
+				e.boundHits++
+				return
+			}
+			if e.hooks != nil {
+				e.errorf("%s: call to %s needs a contract (recursive or too deep to inline)", fnName(fr.fn), name)
+				return
+			}
+			// a recursive helper without a contract cannot be summarised: the proof is lost at this call (a failed
+			// obligation, so that the bounded fallback decides), everything reachable is havocked
+			props := append(append([]string{}, e.propsFor(fr, "safety")...), e.propsFor(fr, "")...)
+			e.oblige(st, fnName(e.top)+"/uncontracted-recursion:"+name, props, BoolLit(false),
+				"call to a recursive (or too deeply nested) function without a contract at "+e.ld.pos(ci.Pos()))
+			e.havocAll(st)
+			res := e.freshSV("callres", rt)
+			e.wfAssume(st, res)
+			k(st, res)
 			return
 		}
 		e.inlineDepth++
@@ -156,6 +174,19 @@ func (e *Exec) builtin(fr *frame, ci ssa.CallInstruction, b *ssa.Builtin, args [
 		e.appendOp(fr, ci, args, st, k)
 	case "ssa:wrapnilchk":
 		k(st, args[0])
+	case "delete":
+		// delete(m, key): the key leaves the domain; a nil map is a no-op
+		if mt, ok := args[0].T.Underlying().(*types.Map); ok && len(args[0].L) == 1 && len(args[1].L) == 1 {
+			cls := "M:" + typeKey(mt.Key()) + ":" + typeKey(mt.Elem())
+			ks := flatten(mt.Key())[0].Sort
+			dn := cls + "#dom"
+			dom := e.heapGet(st, dn, ArrSort(SInt, ArrSort(ks, SBool)))
+			m := args[0].L[0]
+			e.heapSet(st, dn, Ite(Eq(m, IntLit(0)), dom, Store(dom, m, Store(Select(dom, m), args[1].L[0], BoolLit(false)))))
+			k(st, SV{})
+			return
+		}
+		e.abort(st, "delete on "+typeKey(args[0].T))
 	default:
 		if e.hooks != nil {
 			e.hooks.OnForbidden(e, st, ci, "builtin "+b.Name())
